@@ -296,7 +296,8 @@ def step (D : Dataset) : List String → Dataset × String
     | _, _ => (D, "bad-op")
   | "safe" :: rest =>
     match (parseSX (tokenize (" ".intercalate rest))).bind query? with
-    | some q => (D, s!"safe={if q.safe then 1 else 0} frag={if q.inFragment then 1 else 0}")
+    | some q =>
+      (D, s!"safe={if q.safe then 1 else 0} frag={if q.inFragment then 1 else 0} top={if q.safeTop then 1 else 0}")
     | none => (D, "bad-op")
   | "tr" :: rest =>
     match (parseSX (tokenize (" ".intercalate rest))).bind squery? with
